@@ -35,10 +35,10 @@ structure Slow where
 def gRefillIfFull (s : Bytes) (b : Buf) : Res (Bytes × Buf) :=
   if b.ptr = bufLen then refill s else .ok (s, b)
 
-/-- `randU32()`: little-endian uint32 at `ptr`, then `ptr += 8` -/
+/-- `randU32()`: little-endian uint32 at `ptr` (a `uint32`: reduced mod 2^32), then `ptr += 8` -/
 def randU32 (s : Bytes) (b : Buf) : Res (Nat × Bytes × Buf) := do
   let (s, b) ← gRefillIfFull s b
-  pure (leNat ((b.data.drop b.ptr).take 4), s, { b with ptr := b.ptr + 8 })
+  pure (leNat ((b.data.drop b.ptr).take 4) % 4294967296, s, { b with ptr := b.ptr + 8 })
 
 /-- numerator of `randF64()`: little-endian uint64 at `ptr` masked to 53 bits, then `ptr += 8` -/
 def randU53 (s : Bytes) (b : Buf) : Res (Nat × Bytes × Buf) := do
@@ -114,8 +114,8 @@ def gaussCoeffBig (orc : Slow) (sigma : Nat) (boundInt : Int) : Nat → Bool →
       else .ok (normInt, s)) >>= fun (normInt, s) =>
     -- `normInt.Mul(normInt, 2*sign-1)`
     let x : Int := (normInt : Int) * (2 * (sign : Int) - 1)
-    -- `if normInt.Cmp(boundInt) < 1 { break }`
-    if x ≤ boundInt then .ok (x, slow, s, b) else gaussCoeffBig orc sigma boundInt fuel slow s b
+    -- `if normInt.CmpAbs(boundInt) < 1 { break }`
+    if (x.natAbs : Int) ≤ boundInt then .ok (x, slow, s, b) else gaussCoeffBig orc sigma boundInt fuel slow s b
 
 /-- `n` coefficients with `step` -/
 def gaussVec {α : Type} (step : Bool → Bytes → Buf → Res (α × Bool × Bytes × Buf)) :
@@ -126,9 +126,12 @@ def gaussVec {α : Type} (step : Bool → Bytes → Buf → Res (α × Bool × B
       let (t, slow, s, b) ← gaussVec step n slow s b
       pure (c :: t, slow, s, b)
 
-/-- the RNS value written for `(coeffInt, sign)`: `(coeffInt*sign) | (qi-coeffInt)*(sign^1)` -/
+/-- the RNS value written for `(coeffInt, sign)`:
+    `c := coeffInt % qi; neg := (qi - c) * ((c | -c) >> 63); (c*sign) | neg*(sign^1)` -/
 def gaussLimb (q : Nat) (cs : Nat × Nat) : Nat :=
-  u64or (u64mul cs.1 cs.2) (u64mul (u64sub q cs.1) (u64xor cs.2 1))
+  let c := cs.1 % q
+  let neg := u64mul (u64sub q c) (u64shr (u64or c (u64neg c)) 63)
+  u64or (u64mul c cs.2) (u64mul neg (u64xor cs.2 1))
 
 /-- `coeff.Mod(normInt, Qi[j]).Uint64()` (Euclidean remainder) -/
 def gaussLimbBig (q : Nat) (x : Int) : Nat := (x % (q : Int)).toNat
@@ -137,33 +140,59 @@ def gaussLimbBig (q : Nat) (x : Int) : Nat := (x % (q : Int)).toNat
 def isBigPath (sigma bound : Nat) : Bool :=
   decide (sigma > 2 ^ 53 * SF.one) && decide (bound > 2 ^ 64 * SF.one)
 
-/-- `GaussianSampler.read(pol, f)` at the moduli `qs` (= chain[: level+1]); `sigma`, `bound` scaled
-    by 2^1074.  Returns the polynomial, the `slow` flag, the stream and the buffer. -/
-def gaussRead (orc : Slow) (fuel : Nat) (m : Mode) (mont : Bool) (sigma bound : Nat) (N : Nat)
-    (qs : List Nat) (pol : Poly) (s : Bytes) (b : Buf) : Res (Poly × Bool × Bytes × Buf) := do
+/-- the sampling half of `read` (`n` coefficients), small-norm path: `(coeffInt, sign)` pairs -/
+def gaussSmall (orc : Slow) (fuel : Nat) (sigma bound : Nat) (n : Nat) (s : Bytes) (b : Buf) :
+    Res (List (Nat × Nat) × Bool × Bytes × Buf) :=
+  gaussVec (gaussCoeff orc sigma bound fuel) n false s b
+
+/-- the sampling half of `read` (`n` coefficients), big-number path: signed integers -/
+def gaussBig (orc : Slow) (fuel : Nat) (sigma bound : Nat) (n : Nat) (s : Bytes) (b : Buf) :
+    Res (List Int × Bool × Bytes × Buf) :=
+  gaussVec (gaussCoeffBig orc sigma (SF.trunc bound) fuel) n false s b
+
+/-- `GaussianSampler.read(pol, f)` before the final `MForm`, at the moduli `qs` -/
+def gaussReadPlain (orc : Slow) (fuel : Nat) (m : Mode) (sigma bound : Nat) (N : Nat)
+    (qs : List Nat) (pol : Poly) (s : Bytes) (b : Buf) : Res (Poly × Bool × Bytes × Buf) :=
   -- `g.prng.Read(g.randomBufferN)`: refill, `ptr` untouched
-  let (d, s) ← prngRead s bufLen
+  prngRead s bufLen >>= fun (d, s) =>
   let b : Buf := { data := d, ptr := b.ptr }
   if pol.length < qs.length then
     -- index out of range at the first write: after the first coefficient is drawn
-    (if isBigPath sigma bound then
-        gaussVec (gaussCoeffBig orc sigma (SF.trunc bound) fuel) (min N 1) false s b >>= fun _ => (.panic : Res Unit)
-      else
-        gaussVec (gaussCoeff orc sigma bound fuel) (min N 1) false s b >>= fun _ => .panic) >>= fun _ => .panic
+    if isBigPath sigma bound then gaussBig orc fuel sigma bound (min N 1) s b >>= fun _ => .panic
+    else gaussSmall orc fuel sigma bound (min N 1) s b >>= fun _ => .panic
+  else if isBigPath sigma bound then
+    gaussBig orc fuel sigma bound N s b >>= fun (xs, slow, s, b) =>
+    mapRowsLvl (fun q row => List.zipWith (fun a x => m.f a (gaussLimbBig q x) q) row xs) qs pol
+      >>= fun r => .ok (r, slow, s, b)
   else
-  let (r, slow, s, b) ←
-    if isBigPath sigma bound then do
-      let (xs, slow, s, b) ← gaussVec (gaussCoeffBig orc sigma (SF.trunc bound) fuel) N false s b
-      let r ← mapRowsLvl qs pol (fun _ q row =>
-        List.zipWith (fun a x => m.f a (gaussLimbBig q x) q) row xs) 0
-      pure (r, slow, s, b)
-    else do
-      let (cs, slow, s, b) ← gaussVec (gaussCoeff orc sigma bound fuel) N false s b
-      let r ← mapRowsLvl qs pol (fun _ q row =>
-        List.zipWith (fun a c => m.f a (gaussLimb q c) q) row cs) 0
-      pure (r, slow, s, b)
-  -- `if g.montgomery { g.baseRing.MForm(pol, pol) }`
-  let r ← if mont then mformPoly qs r else pure r
-  pure (r, slow, s, b)
+    gaussSmall orc fuel sigma bound N s b >>= fun (cs, slow, s, b) =>
+    mapRowsLvl (fun q row => List.zipWith (fun a c => m.f a (gaussLimb q c) q) row cs) qs pol
+      >>= fun r => .ok (r, slow, s, b)
+
+/-- `Ring.Add(pol, e, pol)` at the moduli `qs`: `CRed(a + b, q)` on the rows below the level; an
+    index out of range when either polynomial has too few rows -/
+def addPolyLvl : List Nat → Poly → Poly → Res Poly
+  | [], rest, _ => .ok rest
+  | _ :: _, [], _ => .panic
+  | _ :: _, _ :: _, [] => .panic
+  | q :: qs, a :: as, e :: es =>
+      addPolyLvl qs as es >>= fun t => .ok (List.zipWith (fun x y => CRed (u64add x y) q) a e :: t)
+
+/-- `Read` / `ReadAndAdd` of a Gaussian sampler at the moduli `qs` (= chain[: level+1]); `sigma`,
+    `bound` scaled by 2^1074.  Returns the polynomial, the `slow` flag, the stream and the buffer.
+    * `read` ends with `if g.montgomery { g.baseRing.MForm(pol, pol) }`;
+    * `ReadAndAdd` of a Montgomery sampler is `e := NewPoly(); Read(e); Add(pol, e, pol)`. -/
+def gaussRead (orc : Slow) (fuel : Nat) (m : Mode) (mont : Bool) (sigma bound : Nat) (N : Nat)
+    (qs : List Nat) (pol : Poly) (s : Bytes) (b : Buf) : Res (Poly × Bool × Bytes × Buf) :=
+  if mont then
+    match m with
+    | .read =>
+      gaussReadPlain orc fuel .read sigma bound N qs pol s b >>= fun (r, slow, s, b) =>
+      mformPoly qs r >>= fun r => .ok (r, slow, s, b)
+    | .readAndAdd =>
+      gaussReadPlain orc fuel .read sigma bound N qs (zeroPoly qs.length N) s b >>= fun (e, slow, s, b) =>
+      mformPoly qs e >>= fun e =>
+      addPolyLvl qs pol e >>= fun r => .ok (r, slow, s, b)
+  else gaussReadPlain orc fuel m sigma bound N qs pol s b
 
 end Lattigo.Sampler
